@@ -468,8 +468,6 @@ Definition reindex_table (n : net) (t : tname) (lk : list (Z * Z)) : net :=
   end.
 (* fx = after "fix: reindex_elements updates trafo3w switches, all measurements, the result table and partially looked-up
    group members" *)
-Definition et_char_fixed (t : tname) : option swet :=
-  match t with TEl Line => Some SL | TEl Trafo => Some ST | TEl Trafo3w => Some ST3 | _ => None end.
 Definition reindex_elements_gen (fx : bool) (n : net) (t : tname) (lk : list (Z * Z)) : result net :=
   match keys n t, lk with
   | [], _ => Ok n                                   (* :250 empty table *)
@@ -497,8 +495,13 @@ Definition reindex_elements_gen (fx : bool) (n : net) (t : tname) (lk : list (Z 
                                            then {| mid := mid m; mmt := mmt m; mty := mty m; mel := remap lk (mel m); msd := msd m |}
                                            else m) (meas n))
              else n in
-    (* switches: before the repair only for line / trafo (not trafo3w) *)
-    let n := match (if fx then et_char_fixed t else et_char t) with
+    (* switches: the repaired code maps line -> 'l', trafo -> 't', trafo3w -> 't3', i.e. exactly the switches whose et
+       denotes this table (sw_target); before the repair only for line / trafo (not trafo3w) *)
+    let n := if fx then
+               set_sw n (map (fun s => if tname_eqb (sw_target (swt s)) t && zin (sel s) old
+                                       then {| sid := sid s; sbus := sbus s; swt := swt s; sel := remap lk (sel s); sclosed := sclosed s |}
+                                       else s) (sw n))
+             else match et_char t with
              | Some c => set_sw n (map (fun s => if swet_eqb (swt s) c && zin (sel s) old
                                                  then {| sid := sid s; sbus := sbus s; swt := swt s; sel := remap lk (sel s); sclosed := sclosed s |}
                                                  else s) (sw n))
@@ -560,7 +563,8 @@ Fixpoint switch_buses (n : net) (sws : list swrow) (buses : list Z) : result (li
           (if zin tb buses && negb (sbus s =? tb) then [fb] else []) ++ r)
     else Ok r
   end.
-Definition select_subnet (n : net) (buses0 : list Z) (include_switch_buses include_results keep_else : bool) : result net :=
+(* fx = after "fix: select_subnet keeps the switches of three-winding transformers" *)
+Definition select_subnet_gen (fx : bool) (n : net) (buses0 : list Z) (include_switch_buses include_results keep_else : bool) : result net :=
   do add <- (if include_switch_buses then switch_buses n (sw n) buses0 else Ok []);
   let buses := zsort_uniq (buses0 ++ add) in
   if negb (allin buses (bus_ids n)) then Err "KeyError" else           (* net.bus.loc[list(buses)] *)
@@ -578,7 +582,7 @@ Definition select_subnet (n : net) (buses0 : list Z) (include_switch_buses inclu
   let sws := filter (fun s => zin (sbus s) buses &&
                               match swt s with
                               | SB => zin (sel s) buses | SL => zin (sel s) (ids Line) | ST => zin (sel s) (ids Trafo)
-                              | ST3 => false end) (sw n) in
+                              | ST3 => fx && zin (sel s) (ids Trafo3w) end) (sw n) in
   (* result tables: copied (restricted) only with include_results; with keep_everything_else and not include_results
      they are cleared; a res table is only touched when it and its element table are non-empty *)
   let nres k := if include_results
@@ -597,6 +601,9 @@ Definition select_subnet (n : net) (buses0 : list Z) (include_switch_buses inclu
   Ok {| bus := nb; el := sel_el; sw := sws; meas := ms; pcost := selc (pcost n); wcost := selc (wcost n);
         grp := if keep_else then grp n else []; ctrl := if keep_else then ctrl n else [];
         rbus := nrbus; res := nres |}.
+
+Definition select_subnet := select_subnet_gen true.
+Definition select_subnet_old := select_subnet_gen false.
 
 (* ------------------------------------------------------------------ :201 _merge_nets (validate=False) *)
 (* the reindex lookup of net2 for one table: duplicates of net1 get max(max1, max of the non-duplicates)+1 .. *)
@@ -784,6 +791,7 @@ Definition G22 (n : net) (o : op) : bool :=
   | OCreateCtrl k idx _ => allin idx (el_ids n k)
   | ODropLines ids => G22_drop n Line ids
   | ODropTrafos th ids => G22_drop n (if th then Trafo3w else Trafo) ids
+  | OReindexElements (TEl k) lk => G22_reindex n k lk
   | _ => false
   end.
 Fixpoint guarded (n : net) (ops : list op) : bool :=
